@@ -48,6 +48,7 @@ def ref(trace):
         evs.append({"seq": e["seq"], "op": e["op"], "name": e["name"], "out": e["out"], "exc": e["exc"], "depth": e["depth"],
                     "args": [[{"k": x["k"], "v": x["v"], "w": x["w"], "d": x["d"]} for x in a] for a in e["args"]],
                     "res": [{"k": x["k"], "v": x["v"], "w": x["w"], "d": x["d"], "m": x["m"]} for x in e["res"]],
+                    "rs": e.get("rs", trace["cfg"].get("resolution", 0)),
                     "gfalse": bool(e["op"] not in ("guarded", "ite") and (any(c == 0 for c in stack) or (e["op"] == "ite" and False)))})
     return {"id": trace["id"], "P": trace["cfg"]["P"], "bitlength": trace["cfg"]["bitlength"], "resolution": trace["cfg"].get("resolution", 0),
             "ign": trace["ign"], "basedepth": base, "events": evs}
